@@ -666,7 +666,7 @@ def _run(ctx, ok, log, icp, reg, ALGS, ENCS, unknown_enc):
             rcps.append(Rcp(alg, key, sender=((key[0], key[1], "sender") if alg.startswith("ECDH-1PU") else None)))
         hist.append(Config(enc, "general", rcps, aad=b"shared aad"))
     # total number of bits tested (for the false alarm budget): generous upper bound
-    TOTAL_BITS[0] = max(1, len(hist) * (192 + 512 + 128 + 3 * 96))
+    TOTAL_BITS[0] = max(1, len(hist) * (192 + 512 + 128 + 3 * 96) + 4096)
     full = set(range(len(hist)))
     if not ctx.quick:
         # N = 10^4 on a covering subset (every alg, every enc, every serialisation, all multi), 1000 elsewhere
@@ -759,6 +759,7 @@ def _run(ctx, ok, log, icp, reg, ALGS, ENCS, unknown_enc):
     def gen_case(kind, arg, private=True, reps=1):
         w_first = len(rec.log)
         first, same = None, True
+        raws = []
         for k in range(reps):
             w0 = len(rec.log)
             try:
@@ -782,6 +783,7 @@ def _run(ctx, ok, log, icp, reg, ALGS, ENCS, unknown_enc):
                     vk = ("b", key.raw_value)
                     if len(key.raw_value) * 8 != arg:
                         ctx.violation({"kind": "size", "what": "oct-key"}, "generated oct key has %d octets for key_size=%d" % (len(key.raw_value), arg), where)
+                    raws.append(key.raw_value)
                     if arg >= 64:
                         check_unique("key", vk, where)
                 elif kind == "RSA":
@@ -811,6 +813,14 @@ def _run(ctx, ok, log, icp, reg, ALGS, ENCS, unknown_enc):
                 ctx.violation({"kind": "history-shape"}, "key generation %s(%r) repetition %d differs: %r vs %r" % (kind, arg, k, rep, first), where)
                 break
             ctx.note_case(("gen", kind, arg, private, k), nontrivial=(k == 0))
+        if len(raws) >= 100 and len(raws[0]) > 0:
+            lo = bit_bounds(len(raws), TOTAL_BITS[0])
+            bad = fixed_bits(raws, lo)
+            if bad:
+                ctx.violation({"kind": "fixed-bits", "what": "oct-key"},
+                              "generated oct keys of %d bits: bit %d is set in %d of %d samples (allowed %d..%d)" % (
+                                  arg, bad[0][0], bad[0][1], len(raws), lo + 1, len(raws) - lo - 1),
+                              {"keygen": kind, "arg": arg, "private": private, "bits": bad[:8], "n": len(raws)})
         err, shape, em = first
         call = {"oct": lambda: "(CallGenOct %s %s)" % (c_Z(arg), c_bool(private)),
                 "RSA": lambda: "(CallGenRSA %s)" % c_Z(arg),
@@ -932,12 +942,15 @@ def replay(path):
     icp = Intercept(); icp.install()
     try:
         keys = Keys(); runner = Runner(icp, keys, reg)
+        still = 0
+        recorded = rp.get("impl")
         if cfgj:
             cfg = Config.from_js(cfgj)
             for rc in cfg.rcps:
                 keys.get(rc.key)
                 if rc.sender: keys.get(rc.sender)
                 if rc.preset: runner.preset_key(rc.preset)
+            seen_vals = set()
             for k in range(3):
                 w0 = len(icp.rec.log)
                 res = runner.encrypt(cfg)
@@ -945,8 +958,24 @@ def replay(path):
                 if res[0] == "ok":
                     iv_obs, robs, vals = runner.observe(cfg, res[1], w0)
                     print("rep", k, "draws", shape, "iv", vals["iv"].hex(), iv_obs, "recipients", robs)
+                    now = {"err": None, "draws": shape, "iv": iv_obs, "recipients": robs}
+                    fresh = [("iv", vals["iv"])] + [("gcmiv", g) for g in vals["gcmiv"]] + [("p2s", x) for x in vals["p2s"]]
+                    if not any(r.alg in ("dir", "ECDH-ES", "ECDH-1PU") for r in cfg.rcps):
+                        fresh += [("cek", c) for c in {c for c, _ in vals["cek"]}]
+                    fresh += [("epk", vk) for vk, _, r in vals["epk"] if r.preset is None]
+                    for item in fresh:
+                        if item in seen_vals:
+                            print("  REPEATED", item[0]); still = 1
+                        seen_vals.add(item)
+                    if iv_obs[0] != "draw" or len(vals["iv"]) != RFC_SIZES.get(cfg.enc, (len(vals["iv"]),))[0]:
+                        still = 1
+                    if any(isinstance(c, int) and c < 1000 for c in vals["p2c"]):
+                        still = 1
                 else:
                     print("rep", k, "draws", shape, "raised", repr(res[1]))
+                    now = {"err": exn_class(res[1]), "draws": shape, "iv": ("none",), "recipients": []}
+                if recorded is not None and json.loads(json.dumps(now, default=str)) == json.loads(json.dumps(recorded, default=str)):
+                    print("  behaves as recorded (disagrees with the model)"); still = 1
         elif "keygen" in rp or (isinstance(rp.get("input"), dict) and "keygen" in rp["input"]):
             g = rp if "keygen" in rp else rp["input"]
             from joserfc.jwk import OctKey, RSAKey, ECKey, OKPKey
@@ -956,10 +985,18 @@ def replay(path):
                     key = {"oct": lambda: OctKey.generate_key(g["arg"], private=g.get("private", True)),
                            "RSA": lambda: RSAKey.generate_key(g["arg"]), "EC": lambda: ECKey.generate_key(g["arg"]),
                            "OKP": lambda: OKPKey.generate_key(g["arg"])}[g["keygen"]]()
-                    print("rep", k, "draws", [(s, n) for (s, n, _) in icp.rec.log[w0:]], key.as_dict(private=True))
+                    shape = [(s, n) for (s, n, _) in icp.rec.log[w0:]]
+                    print("rep", k, "draws", shape, key.as_dict(private=True))
+                    now_err = None
                 except Exception as e:
-                    print("rep", k, "draws", [(s, n) for (s, n, _) in icp.rec.log[w0:]], "raised", repr(e))
+                    shape = [(s, n) for (s, n, _) in icp.rec.log[w0:]]
+                    print("rep", k, "draws", shape, "raised", repr(e))
+                    now_err = exn_class(e)
+                if recorded is not None and now_err == recorded.get("err") and json.loads(json.dumps(shape)) == json.loads(json.dumps(recorded.get("draws"))):
+                    print("  behaves as recorded (disagrees with the model)"); still = 1
+        else:
+            still = 1
     finally:
         icp.uninstall()
-    print("compare the printed behaviour with the description in the replay file")
-    return 1
+    print("still failing" if still else "not reproduced on this tree")
+    return still
